@@ -86,13 +86,15 @@ extern "C" __attribute__((no_instrument_function)) void __cyg_profile_func_exit(
 namespace vf {
 namespace contracts {
 bool available() { return true; }
-void enable(bool on) {
-	if (!lo_fn) {
+namespace {
+struct InitRange {       // before any library thread exists
+	InitRange() {
 		lo_fn = hi_fn = table[0].fn;
 		for (size_t i = 0; i < NCON; i++) { lo_fn = std::min(lo_fn, table[i].fn); hi_fn = std::max(hi_fn, table[i].fn); }
 	}
-	active.store(on, std::memory_order_relaxed);
+} init_range;
 }
+void enable(bool on) { active.store(on, std::memory_order_relaxed); }
 size_t violations() { unsigned k = nviol.load(std::memory_order_relaxed); return k > (unsigned) MAXV ? MAXV : k; }
 const char *violation(size_t i) { return i < violations() ? viol[i] : ""; }
 unsigned long checked() { return nchecked.load(std::memory_order_relaxed); }
